@@ -79,7 +79,8 @@ func (n *InfluxQLNode) MarshalJSON() ([]byte, error) {
 			ID:   n.ID(),
 		},
 		Alias: (*Alias)(n),
-		Args:  n.Args,
+		// Copy the arguments: durations are replaced by strings below.
+		Args: append([]interface{}(nil), n.Args...),
 	}
 	for i, arg := range raw.Args {
 		switch dur := arg.(type) {
